@@ -71,6 +71,7 @@ func (c *c20) do(method, path string, body any) c20Resp {
 		return out
 	}
 	out.obj = parseObj(res.body)
+	c.r.Sample(fmt.Sprintf("%s %s -> %d", method, strings.SplitN(path, "?", 2)[0][:minInt(len(path), 24)], res.status), map[string]any{"request": method + " " + truncStr(path, 60), "body": truncStr(string(b), 200), "status": res.status, "answer": truncStr(string(res.body), 200)})
 	return out
 }
 
@@ -784,6 +785,7 @@ func (c *c20) judgeFault(endpoint, mode string, k int, fired string, res c06http
 		return
 	}
 	c.r.Eval(fmt.Sprintf("fault/%s/%s/k%d", endpoint, mode, k), true)
+	c.r.Sample("fault/"+endpoint+"/"+mode, map[string]any{"endpoint": endpoint, "mode": mode, "fault_at": fired, "status": res.status, "answer": truncStr(string(res.body), 160)})
 	if res.panicked != "" || res.hang {
 		c.r.Violate(fmt.Sprintf("fault:%s:handler-died:%s", endpoint, fired), fmt.Sprintf("fault at %s: panic=%q hang=%v", fired, truncStr(res.panicked, 200), res.hang), c.sig, nil)
 		return
